@@ -330,7 +330,14 @@ func TestWorker(t *testing.T) {
 		}
 		rc := rf.Case
 		announce(rc)
+		wd := time.AfterFunc(60*time.Second, func() {
+			buf := make([]byte, 1<<22)
+			n := runtime.Stack(buf, true)
+			emit(map[string]any{"type": "hang", "run": rc.Run, "seed": rc.Seed, "leg": rc.Leg, "limit_s": 60.0, "stacks": string(buf[:n])})
+			os.Exit(3)
+		})
 		rr := execCase(t, rc, nil, true, nil)
+		wd.Stop()
 		rr.Case = rc
 		rr.HistHash = sha(rr.History...)
 		emit(rr)
@@ -356,6 +363,19 @@ func TestWorker(t *testing.T) {
 		seed := mixSeed(job.Master, job.Property, run)
 		rc, rng := generateCase(job.Property, job.Tier, run, seed)
 		announce(rc)
+		// watchdog on the real clock (this goroutine is outside every bubble):
+		// a run that neither finishes nor becomes quiescent is dumped and ends
+		// the process; the driver decides whose goroutine was spinning
+		limit := 60 * time.Second
+		if thorough {
+			limit = 300 * time.Second
+		}
+		wd := time.AfterFunc(limit, func() {
+			buf := make([]byte, 1<<22)
+			n := runtime.Stack(buf, true)
+			emit(map[string]any{"type": "hang", "run": run, "seed": seed, "leg": rc.Leg, "limit_s": limit.Seconds(), "stacks": string(buf[:n])})
+			os.Exit(3)
+		})
 		var gen func() chooser
 		if rc.UCICfg != nil {
 			gen = func() chooser {
@@ -367,6 +387,7 @@ func TestWorker(t *testing.T) {
 			}
 		}
 		rr := execCase(t, rc, gen, job.Hashes, deadline)
+		wd.Stop()
 		if job.Hashes {
 			rr.HistHash = sha(rr.History...)
 			rr.History = nil
